@@ -23,9 +23,9 @@ type Obligation struct {
 	Desc   string
 	Pos    string
 	// query parts
-	NAssume int    // number of assumptions visible
-	Guard   string // reach condition
-	Goal    string
+	NAssume  int    // number of assumptions visible
+	Guard    string // reach condition
+	Goal     string
 	Implicit bool // implicit safety obligation (bounds, nil, overflow)
 }
 
@@ -34,7 +34,7 @@ type State struct {
 	locals map[*ssa.Alloc]Val
 	heap   map[string]string // heap var -> term
 	ghosts map[string]Val
-	alloc  string // allocation counter term
+	alloc  string         // allocation counter term
 	gen    int            // id of the last havoc-everything event on this path (0 = none)
 	pend   map[string]int // heap vars havoc'd before their first use: name -> havoc id
 }
@@ -80,16 +80,16 @@ const (
 )
 
 type Addr struct {
-	rk     rootKind
-	local  *ssa.Alloc
-	ptr    Val        // rPtr: pointer value
-	arr    string     // rElem: backing array id term
-	idx    string     // rElem: absolute index term
-	global *ssa.Global
-	typ    types.Type // type of the root object
-	path   []step
+	rk       rootKind
+	local    *ssa.Alloc
+	ptr      Val    // rPtr: pointer value
+	arr      string // rElem: backing array id term
+	idx      string // rElem: absolute index term
+	global   *ssa.Global
+	typ      types.Type // type of the root object
+	path     []step
 	reinterp types.Type // non-nil: the location is read through an unsafe re-view as this type
-	text   string // canonical rendering (for `on` filters), best effort
+	text     string     // canonical rendering (for `on` filters), best effort
 }
 
 func (a *Addr) extend(s step, text string) *Addr {
@@ -100,55 +100,56 @@ func (a *Addr) extend(s step, text string) *Addr {
 }
 
 type Gen struct {
-	W      *World
-	fn     *ssa.Function
-	spec   *FuncSpec
-	key    string
-	bv     bool
-	decls  []string
-	sortDecls []string
-	declared map[string]bool
-	structSorts map[string]*Sort
-	heapSorts map[string]string // heap var -> SMT sort
-	assumes []string
-	axioms  []string
-	obls   []*Obligation
-	vals   map[ssa.Value]Val
-	tuples map[ssa.Value][]Val
-	addrs  map[ssa.Value]*Addr
-	exit   map[*ssa.BasicBlock]*State
-	entry  *State // function entry state (for old())
-	params map[string]Val
-	ctr    int
-	errs   []string
-	notes  []string // assumptions / abstractions to report
-	havocCalls map[string]int
-	loops  map[*ssa.BasicBlock]*loopInfo
-	isLocal map[*ssa.Alloc]bool
-	instCount map[string]int
-	strLits map[string]string
-	typeIDs map[string]int
-	modelVars []ModelVar
-	retCount int
-	curBlock *ssa.BasicBlock
-	curPos token.Pos
-	cover []string // reach conditions of returns
-	usedSpecs map[string]bool // callee contracts assumed
-	axiomsAdded map[string]bool
+	W             *World
+	fn            *ssa.Function
+	spec          *FuncSpec
+	key           string
+	bv            bool
+	decls         []string
+	sortDecls     []string
+	declared      map[string]bool
+	structSorts   map[string]*Sort
+	heapSorts     map[string]string // heap var -> SMT sort
+	assumes       []string
+	axioms        []string
+	obls          []*Obligation
+	vals          map[ssa.Value]Val
+	tuples        map[ssa.Value][]Val
+	addrs         map[ssa.Value]*Addr
+	exit          map[*ssa.BasicBlock]*State
+	entry         *State // function entry state (for old())
+	params        map[string]Val
+	ctr           int
+	errs          []string
+	notes         []string // assumptions / abstractions to report
+	havocCalls    map[string]int
+	loops         map[*ssa.BasicBlock]*loopInfo
+	isLocal       map[*ssa.Alloc]bool
+	instCount     map[string]int
+	strLits       map[string]string
+	typeIDs       map[string]int
+	modelVars     []ModelVar
+	retCount      int
+	curBlock      *ssa.BasicBlock
+	curPos        token.Pos
+	cover         []string        // reach conditions of returns
+	usedSpecs     map[string]bool // callee contracts assumed
+	axiomsAdded   map[string]bool
 	loopHeadState map[*ssa.BasicBlock]*State
-	rangeVisited map[*ssa.Range]string
-	frameElems bool
-	globalAddr map[*ssa.Global]int
-	frameDone bool
-	abstractMod bool
-	stableSuffix []string        // struct fields no callee writes (ASSUMED, from `stable` clauses): pkg_Type_field
-	stableSeen   map[string]bool
-	frameNothing bool
-	allocOrder map[*ssa.Alloc]int
-	inputReads []inputRead
-	rets      []retRecord
-	frameAll  bool
-	frameLocs []frameLoc
+	rangeVisited  map[*ssa.Range]string
+	frameElems    bool
+	globalAddr    map[*ssa.Global]int
+	frameDone     bool
+	abstractMod   bool
+	only          map[ssa.Instruction]bool // init@var: slice (nil: execute everything)
+	stableSuffix  []string                 // struct fields no callee writes (ASSUMED, from `stable` clauses): pkg_Type_field
+	stableSeen    map[string]bool
+	frameNothing  bool
+	allocOrder    map[*ssa.Alloc]int
+	inputReads    []inputRead
+	rets          []retRecord
+	frameAll      bool
+	frameLocs     []frameLoc
 }
 
 type loopInfo struct {
